@@ -1,4 +1,5 @@
 import RosuModel.Model.GradualWire
+import RosuModel.Model.BuilderWire
 
 open Rosu
 
@@ -6,6 +7,7 @@ def handle (line : String) : String :=
   match line.trimAscii.toString.splitOn " " with
   | ["GRAD", mode, objs, sig, ops] => Gradual.handleGrad mode objs sig ops
   | ["ONE", mode, objs, take] => Gradual.handleOne mode objs take
+  | ["BLD", kind, mode, calls] => Builder.handleBld kind mode calls
   | _ => "bad-op"
 
 partial def loop (h : IO.FS.Stream) (out : IO.FS.Stream) : IO Unit := do
